@@ -16,7 +16,16 @@ DV = 'adsg_core/optimization/dv_output_defs.py:'
 FAST = 'adsg_core/optimization/hierarchy/fast.py:'
 CMP = 'adsg_core/optimization/hierarchy/complete.py:'
 
+SUP = 'adsg_core/graph/sup/dsg.py:'
+
 CASES = [
+    (SUP + 'SupExistenceMapping.resolve', 'break', "            if src_node.str_context() in src_nodes:\n                sup_tgt_option_node = sup_option_node\n                break", "            if src_node.str_context() in src_nodes:\n                sup_tgt_option_node = sup_option_node"),
+    (SUP + 'SupExistenceMapping.resolve', 'break', 'if src_node.str_context() in src_nodes:', 'if str(src_node) in src_nodes:'),
+    (SUP + 'SupDSG.initialize_choices', 'break', '            if choice_node in mapped_choice_nodes:\n                dup_mapped.append(choice_node)', '            if choice_node not in mapped_choice_nodes:\n                dup_mapped.append(choice_node)'),
+    (SUP + 'SupDSG.initialize_choices', 'break', '        if len(unmapped_choice_nodes):', '        if len(unmapped_choice_nodes) > 1:'),
+    (GP + 'GraphProcessor._update_comb_fixed_mask', 'break', 'fixed_choices[i_dec] = fixed_idx', 'fixed_choices[i_dv] = fixed_idx'),
+    (GP + 'GraphProcessor.get_graph@selection-used-values', 'break', 'if not sel_choice_is_active[i_dec]:\n                opt_dec_used_values[i_dv] = None', 'if not sel_choice_is_active[i_dv]:\n                opt_dec_used_values[i_dv] = None'),
+    (MAT + 'NodeExistence.get_effective_settings@excluded-remap', 'break', '            if i_src not in src_idx_map or i_tgt not in tgt_idx_map:\n                continue', '            if i_src not in src_idx_map or i_tgt not in tgt_idx_map:\n                break'),
     # (function key, kind, old text, new text)
     (NODES + 'DesignVariableNode.correct_value', 'break', 'elif value >= len(self.options):', 'elif value > len(self.options):'),
     (NODES + 'DesignVariableNode.correct_value', 'break', '            value = int(value)\n', ''),
